@@ -32,7 +32,10 @@ PROPS = {
     'C05': dict(witness=False, stages=[
         dict(engine='codec', modes=['cut'], values=(8, 60), also_rel=True),
         dict(engine='pair', pool='x', modes=['xcut'], values=(3, 12))]),
-    'C06': dict(engine='codec', modes=['cap'], witness=False, values=(10, 150)),
+    # second stage: types with handles (Size over-estimates, padding inside table entries, nested tables)
+    'C06': dict(witness=False, stages=[
+        dict(engine='codec', modes=['cap'], values=(10, 150)),
+        dict(engine='codec', pool='h', modes=['cap'], values=(6, 40))]),
     'C10': dict(witness=False, stages=[
         dict(engine='codec', modes=['fault'], values=(10, 150)),
         dict(engine='single', name='rpc', builder='build_rpc', runs=[['--mode', 'rpcfault']], shards=2)]),
